@@ -74,10 +74,159 @@ def r1(ctx):
 def _framing(ctx):
     cr, fb = ctx.fn(CR), ctx.fn(FB)
     packs = [s for s in struct_sites(cr, ctx.folder) if s.kind == "pack"]
-    unpacks = [s for s in struct_sites(fb, ctx.folder) if s.kind == "unpack"]
+    unpacks = [s for s in struct_sites(fb, ctx.folder) if s.kind in ("unpack", "unpack_from")]
     if any(s.fmt is None for s in packs + unpacks):
         raise Undecided("non-literal framing format")
     return cr, fb, packs, unpacks
+
+
+def show_form(f):
+    if f is None:
+        return None
+    cc, cl, k = f
+    parts = []
+    if cc:
+        parts.append("c" if cc == 1 else "%d*c" % cc)
+    if cl:
+        parts.append("L" if cl == 1 else "%d*L" % cl)
+    if k or not parts:
+        parts.append(str(k))
+    return " + ".join(parts)
+
+
+def cursor_model(ctx, fb, un, b):
+    """interpret the loop around the multi-message unpack site `un` -> dict(read_at, read_len, body, next, fields, pending,
+    buffer, style) over linear forms (coefficient of c, coefficient of L, constant), or None when a statement is outside the
+    fragment (assignments, augmented assignments, slices of the one buffer, conversions, the append)"""
+    loops = [p for p in _parents(un.call, fb.node) if isinstance(p, ast.For)]
+    if not loops:
+        return None
+    loop = loops[0]
+    from .capacity import _block_of
+    blk = _block_of(loop)
+    pre = blk[:blk.index(loop)] if blk and loop in blk else []
+    buf = None          # name of the bytes variable that holds the datagram's message area
+    cur = None          # name of an integer cursor variable, when the code walks by offset
+    for st in pre:
+        if isinstance(st, ast.Assign) and len(st.targets) == 1 and isinstance(st.targets[0], ast.Name):
+            if norm(st.value).endswith(".msg"):
+                buf = st.targets[0].id
+            elif isinstance(st.value, ast.Constant) and st.value.value == 0:
+                cur = st.targets[0].id
+    if buf is None:
+        return None
+    used_cur = cur is not None and any(isinstance(x, ast.Name) and x.id == cur for x in ast.walk(loop))
+    ints = {}
+    start = {buf: (1, 0, 0)}        # start offset of the buffer variable
+    if used_cur:
+        start[buf] = (0, 0, 0)
+        ints[cur] = (1, 0, 0)
+    out = {"read_at": None, "read_len": None, "body": None, "next": None, "fields": [], "pending": None, "buffer": buf, "style": "offset" if used_cur else "reslice"}
+    conv = {}
+    spans = {}
+
+    def add(x, y, sign=1):
+        return (x[0] + sign * y[0], x[1] + sign * y[1], x[2] + sign * y[2])
+
+    def ev(e):
+        if isinstance(e, ast.Name) and e.id in ints:
+            return ints[e.id]
+        if isinstance(e, ast.BinOp) and isinstance(e.op, (ast.Add, ast.Sub)):
+            l, r = ev(e.left), ev(e.right)
+            if l is None or r is None:
+                return None
+            return add(l, r, 1 if isinstance(e.op, ast.Add) else -1)
+        v = fold_int(ctx, fb, e)
+        if v is None:
+            return None
+        return (0, 0, v)
+
+    def span(e):
+        """(start, end|None) of buf[lo:hi]"""
+        if isinstance(e, ast.Name) and e.id in start:
+            return (start[e.id], None)
+        if isinstance(e, ast.Subscript) and isinstance(e.value, ast.Name) and e.value.id in start and isinstance(e.slice, ast.Slice) and e.slice.step is None:
+            lo = ev(e.slice.lower) if e.slice.lower is not None else (0, 0, 0)
+            hi = ev(e.slice.upper) if e.slice.upper is not None else None
+            if lo is None or (e.slice.upper is not None and hi is None):
+                raise ValueError(norm(e))
+            base = start[e.value.id]
+            return (add(base, lo), add(base, hi) if hi is not None else None)
+        raise ValueError(norm(e))
+    try:
+        for st in loop.body:
+            if isinstance(st, ast.Assign) and len(st.targets) == 1:
+                tg, v = st.targets[0], st.value
+                if v is un.call:
+                    out["fields"] = [norm(x) for x in tg.elts] if isinstance(tg, ast.Tuple) else [norm(tg)]
+                    if un.kind == "unpack_from":
+                        sp = span(un.args[0])
+                        off = ev(un.args[1]) if len(un.args) > 1 else (0, 0, 0)
+                        if off is None or sp[1] is not None:
+                            return None
+                        out["read_at"] = add(sp[0], off)
+                    else:
+                        sp = span(un.args[0])
+                        out["read_at"] = sp[0]
+                        out["read_len"] = add(sp[1], sp[0], -1) if sp[1] is not None else None
+                        if sp[1] is None:
+                            return None
+                    if out["fields"]:
+                        ints[out["fields"][0]] = (0, 1, 0)          # the length field
+                    continue
+                if isinstance(tg, ast.Name) and isinstance(v, ast.Call) and norm(v.func) in ("PacketType", "SeqNum") and len(v.args) == 1:
+                    conv[tg.id] = "%s(%s)" % (norm(v.func), norm(v.args[0]))
+                    continue
+                if isinstance(tg, ast.Name) and tg.id in start and isinstance(v, ast.Subscript):
+                    sp = span(v)
+                    if sp[1] is not None:
+                        return None
+                    start[tg.id] = sp[0]
+                    continue
+                if isinstance(tg, ast.Name) and isinstance(v, ast.Subscript):
+                    spans[tg.id] = span(v)
+                    continue
+                if isinstance(tg, ast.Name):
+                    f = ev(v)
+                    if f is None:
+                        return None
+                    ints[tg.id] = f
+                    continue
+                return None
+            if isinstance(st, ast.AugAssign) and isinstance(st.target, ast.Name) and st.target.id in ints and isinstance(st.op, (ast.Add, ast.Sub)):
+                f = ev(st.value)
+                if f is None:
+                    return None
+                ints[st.target.id] = add(ints[st.target.id], f, 1 if isinstance(st.op, ast.Add) else -1)
+                continue
+            if isinstance(st, ast.Expr) and isinstance(st.value, ast.Call) and norm(st.value.func).endswith(".append") and st.value.args \
+                    and isinstance(st.value.args[0], ast.Call) and norm(st.value.args[0].func) == "PendingMessage":
+                args = []
+                for x in st.value.args[0].args:
+                    if isinstance(x, ast.Name) and x.id in spans:
+                        out["body"] = spans[x.id]
+                        args.append("<body>")
+                    elif isinstance(x, ast.Subscript):
+                        out["body"] = span(x)
+                        args.append("<body>")
+                    elif isinstance(x, ast.Name) and x.id in conv:
+                        args.append(conv[x.id])
+                    elif isinstance(x, ast.Call) and norm(x.func) in ("PacketType", "SeqNum") and len(x.args) == 1:
+                        args.append("%s(%s)" % (norm(x.func), norm(x.args[0])))
+                    else:
+                        args.append(norm(x))
+                out["pending"] = args
+                continue
+            if isinstance(st, ast.If) and any(isinstance(x, ast.Raise) for x in st.body) and not st.orelse:
+                continue        # decode guards are judged separately
+            if isinstance(st, (ast.Pass,)) or (isinstance(st, ast.Expr) and isinstance(st.value, ast.Constant)):
+                continue
+            return None
+    except ValueError:
+        return None
+    out["next"] = add(start[buf], ints[cur]) if used_cur else start[buf]
+    return out
+
 
 
 def r2(ctx):
@@ -128,33 +277,30 @@ def r2(ctx):
         ctx.check(ok, "C09.R2", cr, "multi: for each message append header then bytes, in queue order", witness=[norm(x) for x in apps])
         j = [n for n in walk_own(cr.node) if isinstance(n, ast.Assign) and isinstance(n.value, ast.Call) and norm(n.value.func) in ("b''.join", 'b"".join')]
         ctx.check(len(j) == 1, "C09.R2", cr, "multi: payload = b''.join(parts)")
-    tg = un.call._parent.targets[0] if isinstance(un.call._parent, ast.Assign) else None
-    names = [norm(x) for x in tg.elts] if isinstance(tg, ast.Tuple) else []
-    sb = slice_bounds(un.args[0])
-    ok = len(names) == 3 and sb is not None and sb[1] is None and fold_int(ctx, fb, sb[2]) == b
-    ctx.check(ok, "C09.R2", fb, "multi: (length, seq, type) = unpack(payload[:b]) with b = calcsize = %d" % b, witness={"targets": names, "slice": norm(un.args[0])}, line=un.lineno)
-    if ok:
-        L, S, Ty = names
-        buf = sb[0]
-        loop = [p for p in _parents(un.call, fb.node) if isinstance(p, ast.For)]
-        body = loop[0].body if loop else []
-        msgdef = [s for s in body if isinstance(s, ast.Assign) and isinstance(s.value, ast.Subscript) and norm(s.value.value) == buf and norm(s.targets[0]) != buf]
-        adv = [s for s in body if isinstance(s, ast.Assign) and norm(s.targets[0]) == buf]
-        okb = False
-        if len(msgdef) == 1:
-            s2 = slice_bounds(msgdef[0].value)
-            okb = fold_int(ctx, fb, s2[1]) == b and norm(s2[2]) in ("%d + %s" % (b, L), "%s + %d" % (L, b))
-        oka = False
-        if len(adv) == 1 and isinstance(adv[0].value, ast.Subscript):
-            s3 = slice_bounds(adv[0].value)
-            oka = s3 is not None and s3[0] == buf and s3[2] is None and norm(s3[1]) in ("%d + %s" % (b, L), "%s + %d" % (L, b))
-        ctx.check(okb and oka, "C09.R2", fb, "multi: body = payload[b:b+length]; advance payload = payload[b+length:]",
-                  "each message is cut by its own length field and the cursor advances past it", witness={"body": [norm(m.value) for m in msgdef], "advance": [norm(x.value) for x in adv]})
-        pmn = [c for c in calls_named(fb, "PendingMessage") if any(p is loop[0] for p in _parents(c, fb.node))] if loop else []
-        okp = len(pmn) == 1 and len(msgdef) == 1 and [norm(x) for x in pmn[0].args[:3]] == [S, Ty, norm(msgdef[0].targets[0])]
-        conv = {norm(s.targets[0]): norm(s.value) for s in body if isinstance(s, ast.Assign)}
-        okp = okp and conv.get(Ty) == "PacketType(%s)" % Ty and conv.get(S) == "SeqNum(%s)" % S
-        ctx.check(okp, "C09.R2", fb, "multi: PendingMessage(SeqNum(seq), PacketType(type), body)", witness=[norm(c) for c in pmn])
+    # reader side: the loop body is interpreted over linear forms in (c, L): c = position of the cursor at the start of an
+    # iteration, L = value of the length field.  Re-slicing the remainder (`payload = payload[b+length:]`) and walking with an
+    # offset (`unpack_from(fmt, payload, offset)`; `offset += ...`) give the same forms.
+    cm = cursor_model(ctx, fb, un, b)
+    sb = None
+    if cm is None:
+        ctx.violated("C09.R2", fb, un.call, "multi: the decode loop is outside the cursor model (linear offsets over one buffer)", line=un.lineno)
+    else:
+        names = cm["fields"]
+        ctx.check(len(names) == 3 and cm["read_at"] == (1, 0, 0) and cm["read_len"] in (None, (0, 0, b)), "C09.R2", fb,
+                  "multi: (length, seq, type) = unpack of the b = calcsize = %d bytes at the cursor" % b,
+                  witness={"targets": names, "read_at": show_form(cm["read_at"]), "slice_length": show_form(cm["read_len"]) if cm["read_len"] else None}, line=un.lineno)
+        ok_body = cm["body"] == ((1, 0, b), (1, 1, b))
+        ok_adv = cm["next"] == (1, 1, b)
+        ctx.check(ok_body and ok_adv, "C09.R2", fb, "multi: body = payload[b:b+length]; advance payload = payload[b+length:]",
+                  "each message is cut by its own length field and the cursor advances past it",
+                  witness={"body": [show_form(x) for x in cm["body"]] if cm["body"] else None, "next_cursor": show_form(cm["next"]) if cm["next"] else None})
+        if len(names) == 3:
+            L, S, Ty = names
+            pm = cm["pending"]
+            okp = pm is not None and pm[:3] == ["SeqNum(%s)" % S, "PacketType(%s)" % Ty, "<body>"]
+            ctx.check(okp, "C09.R2", fb, "multi: PendingMessage(SeqNum(seq), PacketType(type), body)", witness=pm)
+        if cm["buffer"] and cm["style"] == "reslice":
+            sb = (cm["buffer"], None, None)
     # decode-side length guards must not refuse anything the encoder produces: a raise guarded by a comparison of a remaining
     # length with a constant may only cover lengths below the minimum the writer emits at that point (a for the single form,
     # b for each message of the multi form - an empty last message leaves exactly b bytes)
